@@ -138,6 +138,32 @@ def run(chk):
             chk.violation("after every object is gone the register is not back in |0...0> (amplitude of |0...0> is %s): released qubits were not reset\n%s"
                           % (abs(st[1][0]) if st else "?", src[-500:]), {"source": src, "draw": ds[0], "kind": "qobj", "clause": "release"})
             break
+    # a re-allocated index starts in |0> whatever happened to it between its release and its re-use: the only way to reach a released
+    # index is a handle copied out of its owner before the owner died (the copied-handle finding recorded under C03), which is exactly
+    # why the re-allocation resets once more
+    realloc = []
+    RB = "class RBox { public qubit q; public qubit[2] r; public constructor() -> RBox { } public function handle() -> qubit { return this.q; } public function second() -> qubit { return this.r[1]; } }\n"
+    for touch in ("x(old);", "h(old); z(old); h(old);", "x(old); x(old); x(old);", "rx(old, 3.141592653589793f);"):
+        for getter, field in (("handle()", "q"), ("second()", "r[1]")):
+            for fresh in ("RBox c = new RBox(); bit m = measure c.%s; echo(m);" % field,
+                          "qubit f0; qubit f1; qubit f2; bit m0 = measure f0; bit m1 = measure f1; bit m2 = measure f2; echo(m0); echo(m1); echo(m2);",
+                          "qubit[3] fr; bit[] ms = measure fr; echo(ms[0]); echo(ms[1]); echo(ms[2]);"):
+                for end in ("destroy b;", ""):
+                    if end:
+                        src = RB + "function main() -> void { RBox b = new RBox(); qubit old = b.%s; destroy b; %s %s }" % (getter, touch, fresh)
+                    else:
+                        src = RB + "function mk() -> qubit { RBox b = new RBox(); return b.%s; }\nfunction main() -> void { qubit old = mk(); %s %s }" % (getter, touch, fresh)
+                    realloc.append((src, [0.5] * 40))
+    _l5, aimpl, _m5, _i5 = _ev4.run_programs(realloc, with_model=False)
+    for (src, ds), a in zip(realloc, aimpl):
+        chk.count(("realloc-resets", src) if a.startswith("ok ") else None)
+        if not a.startswith("ok "):
+            continue
+        got = _ev4.split_result(a).get("echo_lines")
+        if any(x != "0" for x in got) and qbad is None and not bad:
+            chk.violation("a freshly allocated qubit does not read 0 (%s): its index was released, touched through a surviving handle, and handed "
+                          "out again without a reset\n%s" % (got, src[-420:]), {"source": src, "draw": 0.5, "kind": "qobj", "clause": "realloc"})
+            break
     chk.extra["evaluator_level_programs"] = len(qprogs)
     if qbad:
         qp, ql, w = qbad
